@@ -567,25 +567,25 @@ def search_failing(ctx, broken):
 
 
 MANIFEST = {
-    'level_text': 'Proof (staged): by induction on the template tree (unbounded nesting, parameters, ranges, mappings) the '
-                  'program built by the operational model of create_program plays the independent denotation '
-                  '(C01_denotes_partial): every composite node kind, any nesting of scalar arithmetic (transformation '
-                  'composition lemma), atoms ConstantPT / TablePT (entry de-duplication, constant detection, hold / jump / '
-                  'linear) / PointPT incl. enclosing transformation and constant short-cut, with no hypothesis about '
-                  'the model left for such trees (C01_denotes_simple_atoms); guards = the two known findings only '
-                  '(ParallelChannelPT under a transformation: C01_denotes_refuted; table with a triple final time point: '
-                  'C01_table_final_refuted) plus the exclusion of zero-length linear segments. to_waveform + get_sampled '
-                  '= the program meaning is proved for all well-formed program trees (C01_sampling_loops) and for '
-                  'create_program outputs (C01_sampling_partial). The model is tied to /repo by an exact correspondence '
-                  'check (12 node kinds; get_sampled and plotting.render samples on junction-aligned and off-grid '
-                  'points), and the denotation is evaluated directly on the implementation as the specification oracle.',
-    'level_note': '_partial: for AtomicMultiChannelPT / ArithmeticAtomicPT atoms the atomic obligation (atom_sem) is a '
-                  'hypothesis, validated by the correspondence only; C01_sampling_partial assumes that to_waveform '
-                  'succeeds and that all leaves define one channel set (guaranteed by qupulse constructors, not by the '
-                  'model). Open: error correspondence (C01_errors_statement is false as stated: eager scope evaluation '
-                  'in ArithmeticPT). Not modelled: FunctionPT, time-dependent transformation values, to_single_waveform, '
-                  'measurements, constraints, volatile parameters. Float rounding is modelled away (dyadic inputs). '
-                  'Trusted: Coq kernel, harness, numpy/sympy on the generated domain.',
+    'level_text': 'Proof: by induction on the template tree (unbounded nesting, parameters, ranges, mappings) the program '
+                  'built by the operational model of create_program plays the independent denotation (C01_denotes, proved '
+                  'in full): every composite node kind, any nesting of scalar arithmetic (transformation composition '
+                  'lemma), every modelled atom kind (ConstantPT, TablePT with entry de-duplication / constant detection / '
+                  'hold / jump / linear, PointPT, AtomicMultiChannelPT, ArithmeticAtomicPT) incl. enclosing '
+                  'transformation and constant short-cut. The only hypotheses are the executable guards of the two '
+                  'known findings (ParallelChannelPT under a transformation: C01_denotes_refuted; table with a triple '
+                  'final time point: C01_table_final_refuted) plus the exclusion of zero-length linear segments. '
+                  'to_waveform + get_sampled = the program meaning is proved for all well-formed program trees '
+                  '(C01_sampling_loops) and for create_program outputs (C01_sampling_partial). The model is tied to '
+                  '/repo by an exact correspondence check (12 node kinds; get_sampled and plotting.render samples on '
+                  'junction-aligned and off-grid points), and the denotation is evaluated directly on the '
+                  'implementation as the specification oracle.',
+    'level_note': '_partial: C01_sampling_partial assumes that to_waveform succeeds and that all leaves define one '
+                  'channel set (guaranteed by qupulse constructors, not by the model). Open: error correspondence '
+                  '(C01_errors_statement is false as stated: eager scope evaluation in ArithmeticPT, non-injective '
+                  'channel mappings). Not modelled: FunctionPT, time-dependent transformation values, '
+                  'to_single_waveform, measurements, constraints, volatile parameters. Float rounding is modelled away '
+                  '(dyadic inputs). Trusted: Coq kernel, harness, numpy/sympy on the generated domain.',
     'technique': 'Coq proof by induction on the template tree over an operational model + exact correspondence check '
                  '+ denotational oracle evaluated in Coq on the implementation\'s samples',
     'design_ref': 'DESIGN.md §5 C01, §4.4, Appendix D3',
